@@ -4,9 +4,9 @@ CONSTANTS
   FAMS = {"alias"}
   TYPES = {"hash", "hset", "ivec", "list", "str"}
   DEPTH = 5
-  KINDS0 = {"G", "P", "L", "M", "B", "C", "EL", "EP", "EV", "EI", "EH", "ES", "EM", "S", "PR", "K", "WL", "WM"}
-  KINDS1 = {"G", "L", "M", "B", "C", "EL", "EP", "EV", "EI", "EH", "ES", "EM", "S", "PR", "K", "WL", "WM"}
-  KINDSR = {"G", "L", "M", "B", "C", "EL", "EP", "EV", "EI", "EH", "ES", "EM", "S", "PR", "K", "WL", "WM"}
+  KINDS0 = {"G", "P", "L", "M", "B", "C", "EL", "EP", "EV", "EI", "EH", "EK", "ES", "EM", "S", "PR", "RA", "K", "WL", "WM", "WE"}
+  KINDS1 = {"G", "L", "M", "B", "C", "EL", "EP", "EV", "EI", "EH", "EK", "ES", "EM", "S", "PR", "RA", "K", "WL", "WM", "WE"}
+  KINDSR = {"G", "L", "M", "B", "C", "EL", "EP", "EV", "EI", "EH", "EK", "ES", "EM", "S", "PR", "RA", "K", "WL", "WM", "WE"}
   KEEP1 = 30
   KEEP2 = 3
   KEEPR = 1
